@@ -204,6 +204,7 @@ def command_methods(run, pc):
             raise AnalysisError(f"{pc.name}: no _init_mappings in MRO")
         state = {}
         local = {}
+        local_tables = {}
         for st in im.node.body:
             if isinstance(st, ast.Expr) and isinstance(st.value, ast.Call):
                 c = st.value
@@ -219,6 +220,17 @@ def command_methods(run, pc):
                 continue
             if isinstance(st, ast.Assign) and len(st.targets) == 1:
                 t, v = st.targets[0], st.value
+                if isinstance(t, ast.Name) and isinstance(v, ast.Dict) and v.keys and all(k is not None for k in v.keys):
+                    # a local table of entries (command -> method), to be merged into a table of self further down
+                    d = {}
+                    for k, vv in zip(v.keys, v.values):
+                        try:
+                            kk = unwrap(P.const_eval(k, im.module, cls=pc))
+                        except (Unknown, AnalysisError):
+                            raise AnalysisError(f"{im.qualname}: mapping key `{norm(k)}` not a constant")
+                        d[kk] = entry_value(vv, im)
+                    local_tables[t.id] = d
+                    continue
                 if isinstance(t, ast.Name):
                     try:
                         local[t.id] = [unwrap(x) for x in P.const_eval(v, im.module, cls=pc)]
@@ -268,6 +280,19 @@ def command_methods(run, pc):
                         if missing:
                             raise AnalysisError(f"{im.qualname}: filter names unknown commands {missing}")
                         state[t.attr] = new_obj({k: base[k] for k in keys})
+                        continue
+                    if isinstance(v, ast.DictComp) and len(v.generators) == 1 and isinstance(v.generators[0].target, ast.Name) and not v.generators[0].ifs \
+                            and isinstance(v.key, ast.Name) and v.key.id == v.generators[0].target.id \
+                            and isinstance(v.generators[0].iter, ast.Attribute) and norm(v.generators[0].iter.value) == "self" and v.generators[0].iter.attr in state \
+                            and state[v.generators[0].iter.attr][0] not in ("view", "copy") \
+                            and isinstance(v.value, ast.Call) and isinstance(v.value.func, ast.Attribute) and v.value.func.attr == "get" \
+                            and isinstance(v.value.func.value, ast.Name) and v.value.func.value.id in local_tables and len(v.value.args) == 2 and not v.value.keywords \
+                            and isinstance(v.value.args[0], ast.Name) and v.value.args[0].id == v.key.id:
+                        # one entry per command of the table built so far: the local table's entry for it, or the default
+                        lt = local_tables[v.value.func.value.id]
+                        dflt = entry_value(v.value.args[1], im)
+                        base = state[v.generators[0].iter.attr][1]
+                        state[t.attr] = new_obj({k: lt.get(k, dflt) for k in base})
                         continue
                     if isinstance(v, ast.Call) and isinstance(v.func, ast.Attribute) and v.func.attr == "keys" \
                             and isinstance(v.func.value, ast.Attribute) and norm(v.func.value.value) == "self":
